@@ -21,3 +21,34 @@ def run(ctx, b, drv):
     base.mismatches(ctx, pend0, streams.run_nav(ctx, base.scale(ctx, 500), drv), None)
     pend0.flush()
     base.std_text_check(ctx, b, drv, VFILES, ['parse'], pred, 600, 800, 'c11')
+    other_roots(ctx)
+
+
+def other_roots(ctx):
+    """trees whose root is not a module: expressions parsed with start_symbol='eval_input' - the same navigation facts, and the root reachable from every
+    node and leaf"""
+    import parso
+    from harness import streams
+    vs = streams.versions()
+    exprs = [c for c in gens.COMPARISONS if not c.startswith('if ')]
+    for i, code in enumerate(exprs):
+        v = vs[(i + int(ctx.seed or 0)) % len(vs)]
+        try:
+            m = parso.load_grammar(version=v).parse(code, start_symbol='eval_input', error_recovery=False)
+        except parso.ParserSyntaxError:
+            continue
+        except Exception as e:
+            ctx.violation('C11:' + preds.crash_sig(e), dict(kind='input', version=v, input_text=code, start_symbol='eval_input'))
+            continue
+        ctx.count('c11-eval-input-trees')
+        sig = None
+        for n in preds.iter_nodes(m):
+            if n.get_root_node() is not m:
+                sig = 'C11:root_node:%s' % n.type
+                break
+        try:
+            sig = sig or preds.c11_nav(code, m, 60, gens.rng(0, 'c11pos-eval', i))
+        except Exception as e:
+            sig = 'C11:' + preds.crash_sig(e)
+        if sig:
+            ctx.violation(sig, dict(kind='input', version=v, input_text=code, start_symbol='eval_input', observed=sig))
